@@ -56,6 +56,68 @@ class Script:
         return r
 
 
+def expected_follower(link, leader_now):
+    """where the follower of a link has to be for the leader's present position - from the link's ORIGINAL pair of points
+    and the harness' own maps (translation by the original offset / rotation about the axis by the angle the leader turned)"""
+    import math
+
+    from .c07 import rot as rot_own
+    spec = getattr(link, "_verif_spec")
+    l0, f0 = spec["l0"], spec["f0"]
+    if spec["kind"] == "translation":
+        return vadd(leader_now, vsub(f0, l0))
+    axis, origin = spec["axis"], spec["origin"]
+    k = vmul(axis, 1.0 / vnorm(axis))
+
+    def radial(p):
+        rel = vsub(p, origin)
+        return vsub(rel, vmul(k, vdot(rel, k)))
+    a, b = radial(l0), radial(list(leader_now))
+    angle = math.atan2(vdot(vcross(a, b), k), vdot(a, b))
+    return rot_own(f0, angle, axis, origin)
+
+
+def tag_link(link, kind, l0, f0, axis=None, origin=None):
+    link._verif_spec = {"kind": kind, "l0": list(l0), "f0": list(f0), "axis": axis, "origin": origin}   # pylint: disable=protected-access
+    return link
+
+
+def rotation_scenario(rng: random.Random):
+    """2x2x2 lofts; the four edge-middle points of the bottom face are turned about the vertical axis through the face centre;
+    one of them carries a RadialClamp, the opposite one (and sometimes the other two) follow through RotationLinks"""
+    import classy_blocks as cb
+    from .. import hexref
+    from .c07 import rot as rot_own
+
+    point, vector, scale = similarity(rng)
+    grid = {(i, j, k): point([i, j, k]) for i in range(3) for j in range(3) for k in range(3)}
+    centre, ez = point([1, 1, 0]), vector([0, 0, 1])
+    twist = rng.choice([-1, 1]) * rng.uniform(0.25, 0.5)
+    ring = [(1, 0, 0), (2, 1, 0), (1, 2, 0), (0, 1, 0)]
+    for key in ring:
+        grid[key] = rot_own(grid[key], twist, ez, centre)
+    mesh = cb.Mesh()
+    for i in range(2):
+        for j in range(2):
+            for k in range(2):
+                pts = [grid[(i + c[0], j + c[1], k + c[2])] for c in hexref.XYZ]
+                mesh.add(cb.Loft(cb.Face(pts[:4]), cb.Face(pts[4:])))
+    mesh.assemble()
+    axis = vmul(ez, rng.uniform(0.5, 2.0))      # non-unit
+    radius = vdist(grid[ring[0]], centre)
+    clamps = [cb.RadialClamp(grid[ring[0]], centre, axis)]
+
+    def on_circle(p, prm):
+        rel = vsub(p, centre)
+        k = vmul(ez, 1.0 / vnorm(ez))
+        return (abs(vdot(rel, k)) < 1e-6 * scale and abs(vnorm(rel) - radius) < 1e-6 * scale, True)
+    preds = [on_circle]
+    links = []
+    for key in ring[1:][: rng.choice([1, 2, 3])]:
+        links.append(tag_link(cb.RotationLink(grid[ring[0]], grid[key], axis, centre), "rotation", grid[ring[0]], grid[key], axis, centre))
+    return mesh, clamps, links, preds, scale
+
+
 def mesh_scenario(rng: random.Random, full: bool = False):
     """2x2x2 lofts, interior points perturbed; returns (mesh, clamps, links, predicates, size)"""
     import classy_blocks as cb
@@ -102,7 +164,7 @@ def mesh_scenario(rng: random.Random, full: bool = False):
         targets = [(1, 1, 2), (1, 2, 1), (2, 1, 1), (2, 2, 2), (0, 0, 0)]
         rng.shuffle(targets)
         for t in targets[:5 if full else rng.choice([1, 2, 3, 4])]:
-            links.append(cb.TranslationLink(grid[(1, 1, 1)], grid[t]))
+            links.append(tag_link(cb.TranslationLink(grid[(1, 1, 1)], grid[t]), "translation", grid[(1, 1, 1)], grid[t]))
     return mesh, clamps, links, preds, scale
 
 
@@ -131,13 +193,13 @@ def sketch_scenario(rng: random.Random):
     return sketch, clamps, [], preds, scale
 
 
-def run_one(ctx: Ctx, rid: int, rng: random.Random, kind: str, mode: str, full: bool = False):
+def run_one(ctx: Ctx, rid: int, rng: random.Random, kind: str, mode: str, full: bool = False, rotation: bool = False):
     import numpy as np
     import classy_blocks as cb
     from classy_blocks.optimize import optimizer as optmod
 
     if kind == "mesh":
-        obj, clamps, links, preds, scale = mesh_scenario(rng, full)
+        obj, clamps, links, preds, scale = rotation_scenario(rng) if rotation else mesh_scenario(rng, full)
         opt = cb.MeshOptimizer(obj, report=False)
     else:
         obj, clamps, links, preds, scale = sketch_scenario(rng)
@@ -204,8 +266,8 @@ def run_one(ctx: Ctx, rid: int, rng: random.Random, kind: str, mode: str, full: 
         if (not degenerate) and abs(q_last - q_before) <= tolq:
             improved = not restored        # a tie within rounding: either outcome is the protocol's
         ok_manifold, ok_bounds = pred_of[id(clamp)](list(clamp.position), list(np.atleast_1d(clamp.params)))
-        linked = all(vdist(il.link.follower, vadd(list(grid.points[junction.index]), list(il.link.vector))) <= 1e-9 * scale and
-                     vdist(grid.points[il.follower_index], il.link.follower) <= 1e-12 * scale for il in junction.links)
+        linked = all(vdist(grid.points[il.follower_index], expected_follower(il.link, list(grid.points[junction.index]))) <= 1e-7 * scale
+                     for il in junction.links)
         steps.append({
             "junction": int(junction.index), "degenerate": bool(degenerate), "improved": bool(improved), "restored": restored,
             "q_after_eq_before": bool(abs(q_after - q_before) <= tolq),
@@ -269,7 +331,8 @@ def run(ctx: Ctx) -> None:
     for i in range(n):
         kind = "mesh" if i % 2 == 0 else "sketch"
         mode = ["real", "scripted-random", "scripted-worse", "scripted-degenerate"][(i // 2) % 4]
-        rec = run_one(ctx, len(recs) + 1, rng, kind, mode, full=i < 8)
+        # the second round of the four modes uses the rotation scenario (RadialClamp + RotationLinks) for its mesh runs
+        rec = run_one(ctx, len(recs) + 1, rng, kind, mode, full=i < 8, rotation=8 <= i < 16 or i % 5 == 4)
         if rec is not None:
             recs.append(rec)
     if not recs:
